@@ -39,7 +39,7 @@ class RngStub:
         self.n = 0
 
     def choice(self, a, size=None, replace=True, **kw):
-        a = list(np.asarray(a).tolist())
+        a = list(range(int(a))) if isinstance(a, (int, np.integer)) else list(np.asarray(a).tolist())  # an int population n stands for arange(n) (numpy)
         if size is None:
             size = 1
         out = []
@@ -104,6 +104,32 @@ class _Picks:
         import operator
 
         return [self.a[operator.index(i)] for i in self.idx]
+
+    # numpy's Generator.choice returns an integer ndarray: the picks may be used directly as an index, iterated, measured or converted
+    def __array__(self, dtype=None, copy=None):
+        return np.array(self.tolist(), dtype=dtype or np.int64)
+
+    def __len__(self):
+        return len(self.idx)
+
+    def __iter__(self):
+        return iter(self.tolist())
+
+    def __getitem__(self, k):
+        return np.asarray(self)[k]
+
+    def astype(self, *a, **k):
+        return np.asarray(self).astype(*a, **k)
+
+    @property
+    def shape(self):
+        return (len(self.idx),)
+
+    @property
+    def size(self):
+        return len(self.idx)
+
+    ndim = 1
 
 
 def _load(patches=None):
